@@ -28,6 +28,9 @@ def run(res, tier):
         rng, n_dir, [('roundtrip', lambda c, r, kp: direct.c01_roundtrip(c, kp)),
                      ('roundtrip_helpers', lambda c, r, kp: direct.c01_roundtrip_helpers(c, kp))],
         known_filter=kfilter(ids), gen_kw=dict(max_len=3, max_depth=2))
+    # kernel approximations whose width is decided at fit time (scikit-learn's, random binning): round trip, bare and in a pipeline
+    n_k, bad_k = direct.extra_kernel_checks(rng, 'roundtrip')
+    ev += n_k; bad = bad + [dict(b, test='roundtrip_kernel_approximations') for b in bad_k]
     res.coverage.update(
         evaluations=len(batch.meta) + ev, distinct_nontrivial=distinct + ev,
         rule=('M2: random pipelines (8 leaf kinds, nested Split/KoopmanPipeline, depth<=2) x episode layouts, integer-exact '
